@@ -5,6 +5,7 @@ CONSTANTS
   DEV_ReassignKeepsOld = FALSE
   DEV_RemoveNeedsLanelets = FALSE
   DEV_ForgetsCentre = FALSE
+  DEV_NetMoveKeepsIndex = FALSE
 INVARIANT InvInverseStatic
 INVARIANT InvInverseDynamic
 INVARIANT InvRemoveTotal
